@@ -402,7 +402,18 @@ class Trace:
         self.findings.append(Finding(clause, key, detail))
 
 
-def run_lockstep(side: str, steps: t.Sequence[t.Dict[str, t.Any]], probe_open: bool = True) -> Trace:
+def _peek(s: t.Any) -> bytes:
+    """The complete pending outgoing stream, observed on a clone (non-destructive)."""
+    import copy
+
+    return copy.deepcopy(s).data_to_send()
+
+
+def run_lockstep(side: str, steps: t.Sequence[t.Dict[str, t.Any]], probe_open: bool = True, pending: bool = False) -> Trace:
+    """pending=False: the outgoing stream is drained completely after every step (bytes are attributed to calls).
+    pending=True: the history's own drain steps are executed (partial drains leave bytes pending) and the stream is
+    observed before and after every step on clones, so 'a refused call leaves the outgoing byte stream exactly as it
+    was' is checked with bytes pending and partially drained."""
     LDAPError, ProtocolError = sess.errors()
     tr = Trace()
     s = sess.new(side)
@@ -414,14 +425,39 @@ def run_lockstep(side: str, steps: t.Sequence[t.Dict[str, t.Any]], probe_open: b
 
     for i, step in enumerate(steps):
         if step["op"] == "drain":
-            continue  # drain schedules are C12's business; here everything is drained after each step
+            if pending:
+                amount = step["amount"]
+                if isinstance(amount, tuple):
+                    amount = max(0, len(_peek(s)) + amount[1])
+                try:
+                    s.data_to_send(amount)
+                except BaseException as e:
+                    tr.add("refusal-type", f"{side}:drain-raised-{type(e).__name__}", f"step {i} {step!r}: {e!r}")
+                    tr.diverged = True
+                    break
+                tr.events.append("drain:partial" if _peek(s) else "drain:to-empty")
+            continue  # (without pending mode everything is drained after each step; drain schedules are C12's business)
         before_state = sess.state(s)
         was_closed = seen_closed
         pre = mdl.clone()
+        before_stream = _peek(s) if pending else b""
         out = exec_step(s, side, step, mdl)
         if out.kind == "recv" and not out.info["msgs"]:
             continue  # every message of the step was left out (nothing in progress to answer)
-        emitted = sess.drain(s)
+        if pending:
+            after_stream = _peek(s)
+            if after_stream[: len(before_stream)] != before_stream:
+                what = "accepted" if out.ok else "refused"
+                tr.add("refused-bytes" if not out.ok else "emitted", f"{side}:pending-bytes-altered-by-{what}-{out.kind}",
+                       f"{ctx(i, step)}: {len(before_stream)} bytes were pending ({before_stream[:40].hex()}...), afterwards the stream is "
+                       f"{after_stream[:80].hex()} ({len(after_stream)} bytes)")
+                tr.diverged = True
+                break
+            emitted = after_stream[len(before_stream):]
+            if before_stream:
+                tr.events.append(f"{out.kind}-with-bytes-pending:{'ok' if out.ok else 'refused'}")
+        else:
+            emitted = sess.drain(s)
         after_state = sess.state(s)
         tr.steps_run += 1
         if was_closed:
